@@ -22,6 +22,7 @@ import random
 import shutil
 import sys
 import tempfile
+from typing import List, Optional
 
 from xsdata.formats.dataclass.context import XmlContext
 from xsdata.formats.dataclass.parsers import JsonParser, XmlParser
@@ -159,9 +160,41 @@ class NilPair:
 
 
 @dataclass
+class Town:
+    """a STRING forward reference, resolved in this module: Street below"""
+    streets: List["Street"] = field(default_factory=list, metadata={"type": "Element"})
+
+
+@dataclass
+class Street:
+    name: Optional[str] = field(default=None, metadata={"type": "Element"})
+
+
+@dataclass
 class Broken:
     bad: Optional[Callable] = field(default=None, metadata={"type": "Element"})
 '''
+
+
+def _local_models():
+    """Classes of a LOCAL scope whose string annotations only resolve through the globalns option of the serializer /
+    parser configuration - among them another class called Street."""
+    from dataclasses import dataclass, field
+    from typing import List, Optional
+
+    @dataclass
+    class Street:
+        name: Optional[str] = field(default=None, metadata={"type": "Element"})
+        lanes: Optional[int] = field(default=None, metadata={"type": "Attribute"})
+
+    @dataclass
+    class Road:
+        streets: List["Street"] = field(default_factory=list, metadata={"type": "Element"})
+
+    return Street, Road
+
+
+LSTREET, LROAD = _local_models()
 
 M2 = '''
 from dataclasses import dataclass, field
@@ -240,6 +273,12 @@ def api_ops():
     return {
         # class auto-detection from the keys of a JSON object: Base {x} and Derived {x, y} both hold every key of {"x": 1};
         # the narrowest class wins, whatever the shared context has seen so far (decDerived shows it Derived alone)
+        # type information handed in for ONE call (globalns names the classes of a local scope) belongs to that call: the
+        # next class built through the same context resolves its own string annotations in its own module
+        "serLocalGlobalns": lambda sh: XmlSerializer(context=sh.ctx, config=SerializerConfig(xml_declaration=False, globalns={"Street": LSTREET, "Road": LROAD, "List": List, "Optional": Optional})).render(
+            LROAD(streets=[LSTREET(name="l", lanes=2)])),
+        "parseTown": lambda sh: _name_and_value(sh.xp.from_string("<Town><streets><name>a</name></streets></Town>", m.Town)),
+        "decTown": lambda sh: [type(x).__module__.rsplit(".", 1)[-1][:2] for x in sh.jp.from_string('{"streets": [{"name": "a"}]}', m.Town).streets],
         "decDerived": lambda sh: sh.jp.from_string('{"x": 1, "y": "s"}', m.Derived),
         "decNoClassNarrow": lambda sh: _name_and_value(sh.jp.from_string('{"x": 1}')),
         "decNoClassWide": lambda sh: _name_and_value(sh.jp.from_string('{"x": 1, "y": "s"}')),
